@@ -27,6 +27,8 @@ RELATED = {
     'C18_g': ['C18'], 'C19_g': ['C19'],
     'C02_h': ['C02'], 'C03_h': ['C03'], 'C04_h': ['C04'], 'C08_h': ['C08'], 'C11_h': ['C11'], 'C12_h': ['C12'], 'C14_h': ['C14', 'C02'], 'C15_h': ['C15'],
     'C16_h': ['C16'], 'C20_h': ['C20', 'C13'],
+    'C01_i': ['C01', 'C07'], 'C05_i': ['C05'], 'C06_i': ['C06'], 'C07_i': ['C07', 'C19'], 'C09_i': ['C09'], 'C10_i': ['C10', 'C12'], 'C13_i': ['C13'], 'C17_i': ['C17'],
+    'C18_i': ['C18'], 'C19_i': ['C19', 'C05'],
     'C01_c': ['C01', 'C12'], 'C16_c': ['C16'], 'C17_c': ['C17'], 'C18_c': ['C18', 'C13'], 'C19_c': ['C19', 'C03'], 'C20_c': ['C20'],
 }
 
